@@ -733,8 +733,14 @@ where
                                             }
                                         });
                                     };
-                                    if !buffered_lcs.remove(&lc2.id) && moved_msgs != lc2_msgs {
-                                        println!("merged lc was not in buffered_lcs or its msgs not buffered anymore!\n {:?}\n {:?} msg #{}, moved_msgs={} vs {}", prev_lc, lc2, last_msg_index, moved_msgs, lc2_msgs);
+                                    if !buffered_lcs.remove(&lc2.id) {
+                                        // lc2 was already confirmed and published. As all its msgs are still buffered
+                                        // and now belong to prev_lc it must not stay published:
+                                        lcs_w.empty(lc2.id);
+                                        mark_lc_id_to_refresh(prev_lc.id, &mut lcs_to_refresh);
+                                        if moved_msgs != lc2_msgs {
+                                            println!("merged lc was not in buffered_lcs or its msgs not buffered anymore!\n {:?}\n {:?} msg #{}, moved_msgs={} vs {}", prev_lc, lc2, last_msg_index, moved_msgs, lc2_msgs);
+                                        }
                                     }
                                     remove_last_lc = true;
                                 } else {
